@@ -29,7 +29,14 @@ RULE = (
     "relocated_mesh_grid_from (first grid, a second shifted+stretched grid with equally many points and vertices, back "
     "on the first grid, and a mesh with exactly as many vertices as the data grid has points) and by two "
     "mapper_grids_from calls sharing one relocator is snapshotted and compared (exact) after every later call, and "
-    "the first results are re-checked against their own oracle at the end. rewrap: one flattened boolean pattern "
+    "the first results are re-checked against their own oracle at the end. preload: the mesh scenes with the vertices "
+    "drawn as all inside the smallest border radius / all outside the largest / mixed, each run through "
+    "mapper_grids_from four ways - relocator (control), relocator + Preloads(relocated_grid = the control's data "
+    "grid), neither, preload only: with a relocator both returned grids must satisfy the relocation oracle and the "
+    "preload run must reproduce the control's data grid and mesh grid exactly (the preload stands for the data grid "
+    "only, the vertices are still relocated); without a relocator the vertices (and, without preload, the data grid) "
+    "come back unchanged; non-trivial there = at least one vertex moved (rectangular: the general rule). "
+    "rewrap: one flattened boolean pattern "
     "(12..36 cells; all unmasked, Bernoulli, one run) re-wrapped to 2-4 shapes H x W = cells drawn with repetition "
     "(4x6 then 6x4 / 3x8 / 2x12 ..., the same shape again), with the same or per-step sub-size maps, pixel scales and "
     "origins; one Mask2D + BorderRelocator per step is built in sequence in the same process and each is checked "
@@ -519,7 +526,7 @@ def body_kernel(case, ctx):
 # scenes for BorderRelocator / meshes
 # ---------------------------------------------------------------------------------------------
 @st.composite
-def reloc_case(draw, max_inner=8, with_mesh_type=False):
+def reloc_case(draw, max_inner=8, with_mesh_type=False, with_vertex_class=False):
     ring = draw(st.sampled_from([1, 1, 1, 2, 1, 1, 0, 0]))
     mask = draw(gens.masks(lo=2 * ring + 1, hi=max_inner + 2 * ring, ring=ring, min_unmasked=1))
     n = sum(1 for row in mask for v in row if not v)
@@ -547,6 +554,8 @@ def reloc_case(draw, max_inner=8, with_mesh_type=False):
     case["vertex_inner"] = [[draw(st.integers(0, nv - 1)), draw(st.floats(0.0, 0.2))] for _ in range(draw(st.integers(0, 2)))]
     case["vertex_snap"] = [[draw(st.integers(0, nv - 1)), draw(st.integers(0, 50))] for _ in range(draw(st.integers(0, 2)))]
     case["whole"], case["grid_dtype"], case["mesh_dtype"] = draw_dtypes(draw)
+    if with_vertex_class:
+        case["vertex_class"] = draw(st.sampled_from(["inside", "outside", "mixed", "mixed"]))
     if with_mesh_type:
         case["mesh"] = draw(st.sampled_from(["rectangular", "delaunay", "delaunay", "voronoi"]))
         case["rect_shape"] = [draw(st.integers(3, 5)), draw(st.integers(3, 5))]
@@ -607,10 +616,22 @@ def build_reloc_scene(case, ctx):
     span = np.maximum(hi - lo, 1e-3)
     verts = lo + np.asarray(case["vertices"], dtype=float) * span
     cb = src[gi].mean(axis=0)
-    for idx, f in case.get("vertex_inner", []):
-        verts[idx] = cb + f * (verts[idx] - cb)     # vertices well inside the smallest border radius
-    for idx, k in case["vertex_snap"]:
-        verts[idx] = src[gi[k % len(gi)]]
+    vclass = case.get("vertex_class", "mixed")
+    if vclass in ("inside", "outside"):
+        # every vertex inside the smallest / outside the largest border radius, directions kept
+        rbs = np.sqrt(((src[gi] - cb) ** 2).sum(axis=1))
+        for k in range(len(verts)):
+            d = verts[k] - cb
+            nd = float(np.sqrt((d ** 2).sum()))
+            d = d / nd if nd > 0 else np.array([1.0, 0.0])
+            frac = (0.37 * (k + 1)) % 1.0
+            rad = 0.9 * frac * float(rbs.min()) if vclass == "inside" else (1.5 + 2.0 * frac) * max(float(rbs.max()), 1e-3 * float(span.max()))
+            verts[k] = cb + rad * d
+    else:
+        for idx, f in case.get("vertex_inner", []):
+            verts[idx] = cb + f * (verts[idx] - cb)     # vertices well inside the smallest border radius
+        for idx, k in case["vertex_snap"]:
+            verts[idx] = src[gi[k % len(gi)]]
     # dtype classes: optionally whole-number coordinates, handed over as float64 / float32 / int64 / int32 arrays
     # or nested Python lists; `src` / `verts` are the float64 values of what is handed over
     s.whole = case.get("whole")
@@ -742,6 +763,82 @@ def body_mesh(case, ctx):
     if kind != "rectangular":
         check_relocation(ctx, "mesh/%s/reuse/mesh-grid" % kind, np.asarray(mg2.source_plane_mesh_grid), verts2, border2,
                          border_rows=rows_on_border(verts2, border2, s.vertex_border_rows), label=False, **kw)
+
+
+def _mapper_grids_opts(s, case, grid, mesh_grid, relocator, preloads):
+    import autoarray as aa
+    kind = case["mesh"]
+    kwargs = {} if preloads is None else {"preloads": preloads}
+    if kind == "rectangular":
+        mesh = aa.mesh.Rectangular(shape=tuple(case["rect_shape"]))
+        return mesh.mapper_grids_from(mask=s.mask, source_plane_data_grid=grid, border_relocator=relocator, **kwargs)
+    mesh = aa.mesh.Delaunay() if kind == "delaunay" else aa.mesh.Voronoi()
+    return mesh.mapper_grids_from(mask=s.mask, source_plane_data_grid=grid, border_relocator=relocator,
+                                  source_plane_mesh_grid=mesh_grid, **kwargs)
+
+
+def body_preload(case, ctx):
+    """mapper_grids_from with / without a border relocator x with / without Preloads(relocated_grid=...): the
+    preload stands for the relocated DATA grid only; the mesh vertices handed back must still obey the rule."""
+    import autoarray as aa
+    s = build_reloc_scene(case, ctx)
+    if s is None:
+        return
+    kw = dict(TOL=s.tol, BAND=s.band)
+    border = s.src[s.bidx]
+    brows = [int(b) for b in s.bidx]
+    kind = case["mesh"]
+    tri = kind != "rectangular"
+    ctx.label("mesh:%s" % kind, "vertices:%s" % case.get("vertex_class", "mixed"))
+    pfx = "preload/%s" % kind
+
+    def inputs():
+        return grid_input(s, s.src)[0], mesh_input(s, s.verts)[0]
+
+    # A: relocator, no preload (control)
+    g, v = inputs()
+    mg_a = _mapper_grids_opts(s, case, g, v, s.relocator, None)
+    data_a = np.array(mg_a.source_plane_data_grid, copy=True)
+    moved, outer = check_relocation(ctx, pfx + "/relocator/data-grid", data_a, s.src, border, border_rows=brows, **kw)
+    mesh_a = np.array(mg_a.source_plane_mesh_grid, copy=True)
+    vm = 0
+    if tri:
+        vm, vo = check_relocation(ctx, pfx + "/relocator/mesh-grid", mesh_a, s.verts, border,
+                                  border_rows=s.vertex_border_rows, **kw)
+        ctx.label("vertices-moved:%s" % ("none" if vm == 0 else ("all" if vm == len(s.verts) else "some")))
+    ctx.nt((vm >= 1) if tri else (moved >= 1 and outer >= 1))
+    # B: relocator and the relocated data grid of the same inputs as a preload
+    g, v = inputs()
+    pre = aa.Preloads(relocated_grid=aa.Grid2DIrregular(values=data_a.copy()))
+    mg_b = _mapper_grids_opts(s, case, g, v, s.relocator, pre)
+    ctx.equal(np.asarray(mg_b.source_plane_data_grid), data_a, pfx + "/relocator+preload/data-grid",
+              "data grid with Preloads(relocated_grid) vs the one obtained without preloads")
+    if tri:
+        ties = ctx.ties
+        check_relocation(ctx, pfx + "/relocator+preload/mesh-grid", np.asarray(mg_b.source_plane_mesh_grid), s.verts, border,
+                         border_rows=s.vertex_border_rows, label=False, **kw)
+        ctx.ties = ties
+    ctx.equal(np.asarray(mg_b.source_plane_mesh_grid), mesh_a, pfx + "/relocator+preload/mesh-grid-vs-control",
+              "mesh grid with Preloads(relocated_grid) vs the one obtained without preloads")
+    # C: no relocator, no preload: nothing is relocated
+    g, v = inputs()
+    mg_c = _mapper_grids_opts(s, case, g, v, None, None)
+    ctx.equal(np.asarray(mg_c.source_plane_data_grid, dtype=float), s.src, pfx + "/no-relocator/data-grid",
+              "data grid without a border relocator vs input")
+    if tri:
+        ctx.equal(np.asarray(mg_c.source_plane_mesh_grid, dtype=float), s.verts, pfx + "/no-relocator/mesh-grid",
+                  "mesh vertices without a border relocator vs input")
+    # D: no relocator but a preloaded relocated grid: the preload may stand in for the data grid, the vertices are
+    # not relocated (there is no relocator to apply the rule)
+    g, v = inputs()
+    pre = aa.Preloads(relocated_grid=aa.Grid2DIrregular(values=data_a.copy()))
+    mg_d = _mapper_grids_opts(s, case, g, v, None, pre)
+    dd = np.asarray(mg_d.source_plane_data_grid, dtype=float)
+    ctx.check(dd.shape == s.src.shape and (np.array_equal(dd, data_a) or np.array_equal(dd, s.src)),
+              pfx + "/preload-only/data-grid", "data grid with a preload and no relocator is neither the preload nor the input")
+    if tri:
+        ctx.equal(np.asarray(mg_d.source_plane_mesh_grid, dtype=float), s.verts, pfx + "/preload-only/mesh-grid",
+                  "mesh vertices with a preload and no border relocator vs input")
 
 
 # ---------------------------------------------------------------------------------------------
@@ -932,6 +1029,8 @@ SUBCHECKS = [
              shards={"quick": 3, "thorough": 3}),
     SubCheck("subborder", body_subborder, strategy=subborder_case(), examples={"quick": 1000, "thorough": 12000},
              shards={"quick": 4, "thorough": 3}),
+    SubCheck("preload", body_preload, strategy=reloc_case(with_mesh_type=True, with_vertex_class=True),
+             examples={"quick": 400, "thorough": 6000}, shards={"quick": 2, "thorough": 3}),
     SubCheck("rewrap", body_rewrap, strategy=rewrap_case(), examples={"quick": 400, "thorough": 6000},
              shards={"quick": 2, "thorough": 4}),
 ]
